@@ -193,7 +193,13 @@ def gen_history(rng, tier, ity, big=False):
             h.append("ser %d %d %s" % (s, nxt, rng.choice(["bytes", "stream"])))
             h += qlines(nxt)
             live.append(nxt); nxt += 1
-        elif r < 0.985:
+        elif r < 0.99 and len(live) > 1:
+            # ASSIGN one live sketch into another (same types; the harness alternates copy / move assignment): the target's former
+            # content must be gone entirely - tables of equal size are the interesting case - then both go on
+            d = rng.choice([x for x in live if x != s])
+            h.append("copy %d %d" % (s, d))
+            h += qlines(d)
+        elif r < 0.993:
             h.append("apriori %d %d" % (rng.randrange(3, 25), rng.randrange(0, 2**45)))
         else:
             h += qlines(s)
@@ -261,7 +267,7 @@ def annotate(hist, impl_out, stop_at_opaque_merge=False):
                             if sum(1 for x in lbs if x > 0) == int(o[3]):
                                 l += " " + ww.fmt(sum(lbs))
             off[sid] = new; nact[sid] = int(o[3]); tot[sid] = ww.val(o[1])
-        elif w[0] == "ser" and o and o[0] == "S" and int(w[1]) in wt:
+        elif w[0] in ("ser", "copy") and o and o[0] == "S" and int(w[1]) in wt:
             nid = int(w[2]); wt[nid] = wt[int(w[1])]
             off[nid] = wt[nid].val(o[2]); nact[nid] = int(o[3]); tot[nid] = wt[nid].val(o[1])
         res.append(l)
@@ -388,6 +394,20 @@ def oracle(hist, impl_out):
                     bad.append(("total-weight-not-exact", "after merge reported=%s true=%s" % (sh(total), sh(s["N"])), i))
                     s["N"] = total
             chk_eps(i, s, total, offset, eps)
+            s["last"] = (total, offset, nact)
+        elif op == "copy":
+            # copy construction / assignment into a live sketch: the target IS the source afterwards, whatever it held before
+            if sid not in sk:
+                continue
+            t = sk[sid]
+            if not o or o[0] != "S":
+                bad.append(("bad-observation", out[:80], i)); continue
+            s = dict(w=t["w"], truth=dict(t["truth"]), N=t["N"], lgmax=t["lgmax"], eps_ok=t["eps_ok"])
+            sk[int(w[2])] = s
+            total, offset, nact, empty, eps = parseS(s, o)
+            if (total, offset, nact) != t["last"]:
+                bad.append(("copy-changes-state", "source=%s copy=%s" % ((sh(t["last"][0]), sh(t["last"][1]), t["last"][2]), (sh(total), sh(offset), nact)), i))
+                s["N"] = total
             s["last"] = (total, offset, nact)
         elif op == "ser":
             if sid not in sk:
